@@ -197,21 +197,29 @@ V_BLOCKS = [("fence", ["```", "a", "b", "```"], "a\nb\n"), ("fence", ["~~~ x", "
             ("fence", [" ```", " a", "b", "  c", " ```"], "a\nb\n c\n")]
 
 
+# the same containers as a LATER sibling item whose marker width or content offset differs from the first item's
+V_SIBLINGS = [(["9. s"], "10. ", "    "), (["10. s"], "9. ", "   "), (["1. s"], "02. ", "    "), (["- s"], "-   ", "    "),
+              (["-   s"], "- ", "  "), (["9) s", ""], "10) ", "    "), (["> 9. s"], "> 10. ", ">     "),
+              (["- 9. s"], "  10. ", "      "), (["99. s"], "100. ", "     ")]
+
+
 def v_docs():
-    for first, cont in V_CONTAINERS:
+    for lead, first, cont in [([], f, c) for f, c in V_CONTAINERS] + V_SIBLINGS:
         for pre in V_PREAMBLES:
             for kind, body, exp in V_BLOCKS:
                 lines = pre + body
                 if kind == "code_block" and pre and pre[-1] != "":
                     continue  # indented code cannot interrupt a paragraph-like line
-                in_list = "-" in first or "1." in first
+                in_list = "-" in first or "." in first or ")" in first
+                if lead and kind == "code_block" and not pre and len(first) - len(first.rstrip(" ")) > 1:
+                    continue  # (marker + more than one blank + indented code: the content offset is marker + 1)
                 if in_list and pre[:1] == ["a|b"]:
                     continue  # the table rule takes the list marker line ('- a|b' + '-|-' is a table, not a list)
                 if in_list and body[0].startswith(" "):
                     continue  # a body line indented less than the item's content offset would end the item
                 src = "\n".join((first if i == 0 else cont) + l if (l or cont.strip()) else (first if i == 0 else cont).rstrip()
                                  for i, l in enumerate(lines)) + "\n"
-                yield src, kind, exp
+                yield "".join(x + "\n" for x in lead) + src, kind, exp
 
 
 def v_variants(src, exp):
